@@ -295,7 +295,9 @@ pub async fn copy_bidi(ctx: ContextRef, params: &IoParams) -> Result<(), Error> 
     let server_label = ctx_lock.props().connector.as_ref().unwrap().clone();
     drop(ctx_lock);
 
-    let (mut client_fd, mut server_fd) = (None, None);
+    // the descriptors the idle check asks about: one per direction that owns it (the same number for both where
+    // the stream is shared; two duplicates in the splice path, each closed when its direction finishes)
+    let (mut client_fd, mut server_fd) = ((None, None), (None, None));
     let mut csrc = SrcHalf::new("client");
     let mut ssrc = SrcHalf::new("server");
     let mut cdst = DstHalf::new("client");
@@ -319,8 +321,8 @@ pub async fn copy_bidi(ctx: ContextRef, params: &IoParams) -> Result<(), Error> 
         // Get the naked streams without buffers.
         let client = client.into_inner().into_inner();
         let server = server.into_inner().into_inner();
-        client_fd = socket_fd(&*client);
-        server_fd = socket_fd(&*server);
+        client_fd = (socket_fd(&*client), socket_fd(&*client));
+        server_fd = (socket_fd(&*server), socket_fd(&*server));
 
         if has_raw_fd(&*client) && has_raw_fd(&*server) && params.use_splice {
             #[cfg(target_os = "linux")]
@@ -330,6 +332,12 @@ pub async fn copy_bidi(ctx: ContextRef, params: &IoParams) -> Result<(), Error> 
                 let sraw = into_owned_fd(server);
                 let craw2 = craw.try_clone().context("dup client fd")?;
                 let sraw2 = sraw.try_clone().context("dup server fd")?;
+                {
+                    use std::os::unix::prelude::AsRawFd;
+                    // (owned by the client->server direction, owned by the server->client direction)
+                    client_fd = (Some(craw2.as_raw_fd()), Some(craw.as_raw_fd()));
+                    server_fd = (Some(sraw.as_raw_fd()), Some(sraw2.as_raw_fd()));
+                }
                 csrc.rawfd = Some(AsyncFd::new(craw2).context("register client fd")?);
                 cdst.rawfd = Some(AsyncFd::new(craw).context("register client fd")?);
                 ssrc.rawfd = Some(AsyncFd::new(sraw2).context("register server fd")?);
@@ -396,7 +404,14 @@ pub async fn copy_bidi(ctx: ContextRef, params: &IoParams) -> Result<(), Error> 
                 // A queue that shrank since the last tick is data the tunnel carried in that second (it was
                 // closed as idle before, in the middle of a transfer). A queue that stands still is a stalled
                 // receiver: that is idle.
-                let (cq, sq) = (unsent(client_fd), unsent(server_fd));
+                // (a number whose direction has finished is closed and may belong to another connection by
+                // now - that tunnel's traffic kept this one alive: ask through the direction still running)
+                let (cfd, sfd) = if c2s.is_none() {
+                    (client_fd.0, server_fd.0)
+                } else {
+                    (client_fd.1, server_fd.1)
+                };
+                let (cq, sq) = (unsent(cfd), unsent(sfd));
                 if matches!((cq, client_queue), (Some(now), Some(before)) if now < before) {
                     server_stat.touch();
                 }
